@@ -201,8 +201,10 @@ def run(ctx):
     out = Outcome()
     q = ctx.quick
     # (1) design: the reference model satisfies the C13 laws (bounded exhaustive, 16 workers)
-    big = (2, 2, [1, 2, 3], [0, 1, 2]) if q else (3, 2, [1, 2, 3, 7], [0, 1, 2, 3])
-    r = tlc.model_check(ctx.sub("mc"), "JournalMC", mc_cfg(*big, dump=False), timeout=1500, heap="8g")
+    # thorough: 3 operations per session object x 2 objects (1.3 M states, 32 M transitions, ~7 min); the instance with four
+    # sequence numbers and four counter values on top of that did not finish in 25 min and was dropped
+    big = (2, 2, [1, 2, 3], [0, 1, 2]) if q else (3, 2, [1, 2, 3], [0, 1, 2])
+    r = tlc.model_check(ctx.sub("mc"), "JournalMC", mc_cfg(*big, dump=False), timeout=5400, heap="16g")
     out.add_tlc(r)
     ctx.log("design model: %d distinct states, %d transitions, laws hold" % (r["distinct"], r["generated"]))
     # (2) spec -> code: a shortest operation path to every distinct state of a smaller instance
@@ -212,7 +214,7 @@ def run(ctx):
     nstates = 0
     for ii, small in enumerate(insts):
         mr, mo, seqs, sv = small
-        d = tlc.dump_edges(ctx.sub("dump%d" % ii), "JournalMC", mc_cfg(*small, dump=True, props=False), marker="STATE", timeout=1500)
+        d = tlc.dump_edges(ctx.sub("dump%d" % ii), "JournalMC", mc_cfg(*small, dump=True, props=False), marker="STATE", timeout=5400)
         paths = d["edges"]
         if len(paths) != d["distinct"]:
             raise tlc.MachineryError("state dump incomplete: %d of %d" % (len(paths), d["distinct"]))
